@@ -4,6 +4,7 @@ package main
 // and print every projected observable in canonical form.
 
 import (
+	"runtime/debug"
 	"bufio"
 	"context"
 	"fmt"
@@ -550,6 +551,12 @@ func encVars(e *evalfilter.Eval) string {
 
 func runHistory(c kv) string {
 	src := unhex(c["script"])
+	if c["maxstack"] != "" {
+		// a scaled-down stack limit (the default is 1 GB), so that unbounded recursion shows with little memory
+		if n, err := strconv.Atoi(c["maxstack"]); err == nil {
+			debug.SetMaxStack(n)
+		}
+	}
 	if c["tz"] != "" {
 		os.Setenv("TZ", c["tz"])
 	} else {
